@@ -1329,7 +1329,7 @@ fn main() {
         em.emit(run_case(id, &case));
     }
     if args.case.is_none() {
-        let n = args.n.unwrap_or(if args.thorough() { 3000 } else { 450 });
+        let n = args.n.unwrap_or(if args.thorough() { 3000 } else { 350 });
         let mut rng = Rng::new(args.seed);
         for i in 0..n {
             let mut r = rng.fork();
